@@ -356,6 +356,42 @@ ASSUMPTIONS = [
 ]
 
 
+def seam_report():
+    """Static look at the sources the checks are about to compile: thread / sync primitives written with their
+    full std path inside a hand-threaded function bypass the seam (the shuttle lanes cannot preempt there;
+    only the Miri lanes schedule them), and thread creation outside the functions that import the seam is
+    not scheduled at all. Reported in the evidence and as a NOTE line; never an alarm."""
+    import re
+    src = os.environ.get("GRAAF_SRC") or os.path.join(REPO, "src")
+    bypass, unseamed = [], []
+    for root, _, files in os.walk(src):
+        for f in files:
+            if not f.endswith(".rs") or f == "verif_seam.rs":
+                continue
+            path = os.path.join(root, f)
+            try:
+                text = open(path).read()
+            except OSError:
+                continue
+            # split into top-level-in-impl functions: "    fn name(" ... next "    fn " or "\n}\n"
+            parts = re.split(r"\n(?=    (?:pub )?(?:unsafe )?fn )", text)
+            for part in parts:
+                m = re.match(r"    (?:pub )?(?:unsafe )?fn (\w+)", part)
+                if not m or "#[cfg(test)]" in part[:200]:
+                    continue
+                name = m.group(1)
+                body = part.split("\n#[cfg(test)]")[0]
+                seamed = "use crate::verif_seam::" in body
+                code = "\n".join(ln for ln in body.splitlines() if not ln.strip().startswith("//"))
+                if seamed and re.search(r"\bstd::(sync|thread)::", code):
+                    bypass.append("%s: fn %s" % (os.path.relpath(path, src), name))
+                if not seamed and re.search(r"\b(spawn|scope)\s*\(", code) and re.search(r"\bthread\b|\bspawn\b", code) \
+                        and "/tests" not in path:
+                    if re.search(r"\b(thread::)?(spawn|scope)\s*\(\s*(move\s*)?\|", code):
+                        unseamed.append("%s: fn %s" % (os.path.relpath(path, src), name))
+    return {"std_paths_inside_seamed_functions": sorted(set(bypass)), "thread_creation_outside_the_seam": sorted(set(unseamed))}
+
+
 def cpu_buckets(c):
     """Executions per simulated CPU count: exact for 1..=16 and the injected query failure, ranges above."""
     out = {}
@@ -414,6 +450,10 @@ def sched_phase(pid, tier, runs=None):
     cases, cases_total = distinct(binary, [os.path.join(workdir, "shard%02d.json.cases" % k) for k in range(njobs)])
     scheds, scheds_total = distinct(binary, [os.path.join(workdir, "shard%02d.json.scheds" % k) for k in range(njobs)])
     new, known_hits, herr = triage(binary, pid, violations, seed)
+    sr = seam_report()
+    for k, v in sr.items():
+        if v:
+            log("NOTE %s: %s (the shuttle lanes cannot schedule these; the Miri lanes can)" % (k.replace("_", " "), "; ".join(v)))
     # the digest files are large in the thorough tier (8 bytes per run / case / schedule): drop them
     for k in range(njobs):
         for ext in (".cases", ".scheds", ".runs"):
@@ -457,6 +497,7 @@ def sched_phase(pid, tier, runs=None):
         "reach_probes": {k[6:]: v for k, v in sorted(c.items()) if k.startswith("probe/")},
         "other_counters": {k: v for k, v in sorted(c.items())
                            if not k.startswith(("fault/", "cpu/", "rel/", "sched/", "op/", "probe/"))},
+        "seam_report": sr,
         "determinism_spotcheck_runs": len(a),
         "worker_processes": njobs,
         "components": COMPONENTS,
